@@ -11,7 +11,7 @@ export GOFLAGS=-mod=mod GOPROXY=off GOSUMDB=off GOTOOLCHAIN=local
 (cd "$D" && go build ./... && go build -tags verif ./... ) >/dev/null 2>&1 || { echo "BENIGN $1 does-not-compile"; exit 3; }
 (cd "$D" && go test -vet=off -count=1 ./combination ./pot ./regulator ./settlement ./testcases >/dev/null 2>&1) || { echo "BENIGN $1 suite-fails"; exit 3; }
 bad=0
-for p in C01 C02 C04 C05 C06 C07 C08 C09 C10 C11 C12 C13 C14 C15 C16 C17 C18 C19 C20; do
+for p in ${BENIGN_PROPS:-C01 C02 C04 C05 C06 C07 C08 C09 C10 C11 C12 C13 C14 C15 C16 C17 C18 C19 C20}; do
   out=$(VERIF_DIR_REPLAYS="$D/replays" VERIF_REPO="$D" VERIF_EVIDENCE_DIR="$D/evidence" timeout 1800 /verif/verif.sh check $p $TIER 2>&1); rc=$?
   if [ $rc -ne 0 ]; then bad=1; echo "  ALARM $p exit=$rc: $(echo "$out" | grep -m1 'minimising the first' | cut -c1-400)"; echo "$out" | grep -A3 "^  steps:" | head -3 | cut -c1-400; fi
 done
